@@ -4,7 +4,7 @@
    Spec/C01Wf.v; proofs: Proofs/C01Holes.v, Proofs/C01Skeleton.v. *)
 From Coq Require Import String Ascii List Bool.
 Require Import TT.Model.Str TT.Model.Pipeline TT.Spec.TsLex TT.Spec.TsModule TT.Spec.TsObs TT.Spec.C01Wf TT.Model.C01Emit.
-Require Import TT.Proofs.C01Holes TT.Proofs.C01Skeleton.
+Require Import TT.Model.TypeParse TT.Proofs.C01Holes TT.Proofs.C01Skeleton TT.Proofs.C01TypeHole.
 Import ListNotations.
 
 (* ---- hole lemmas (C01_holes, per class, on the complement of the recorded classes) ---- *)
@@ -84,14 +84,51 @@ Theorem C01_type_hole_witnesses :
   hole_ok HZ (field_schema g0 {| cf_name := L "pair"; cf_ty := QTuple [T2 "HashMap" (T0 "String") (T0 "i32"); T0 "bool"]; cf_serde := []; cf_val := None |}) = true.
 Proof. exact type_hole_witnesses. Qed.
 
-(* ---- skeleton (token level, plain-mode types.ts interface template; keys bare or quoted by ts_key) ---- *)
-Theorem C01_skeleton_interface_partial : forall name ms rest,
+(* ---- type holes, for all types: every TypeStructure whose leaf names are legal type names and whose nesting
+   stays below the parser budget renders to tokens that ptype consumes up to any stop token (no dot, angle
+   bracket, bar or bracket pair next), and the parsed type is well formed. By induction on the TypeStructure
+   (arrays, sets, maps, tuples, options, results), through the invariant that a rendered type is a bar-separated
+   sequence of primaries each followed by bracket pairs. ---- *)
+Theorem C01_type_hole_render : forall g t rest,
+  leaves_ok g t = true -> tdepth t < TYF -> stop rest ->
+  exists ty, ptype (rtoks g t ++ rest) = Some (ty, rest) /\ ty_ok ty = true.
+Proof. exact render_ptype. Qed.
+
+(* ---- skeleton, token level ---- *)
+(* interface template: any name, any members with good keys (bare or quoted) and type tokens consumed by ptype *)
+Theorem C01_skeleton_interface : forall name ms rest,
   is_binding_name name = true -> Forall good_member ms ->
-  p_item (interface_toks name ms ++ rest) = Some (IInterface name [] None (map member_ast ms) [], rest) /\
-  item_ok (IInterface name [] None (map member_ast ms) []) = true.
+  exists asts, p_item (interface_toks name ms ++ rest) = Some (IInterface name [] None asts [], rest) /\
+               Forall2 member_matches ms asts /\ item_ok (IInterface name [] None asts []) = true.
 Proof. exact skeleton_interface. Qed.
 
-(* what remains: every item template of every file, at text level, from boolean hole_ok alone *)
+(* the same on the model's structs, with every premise about holes discharged: keys need none (ts_key), types
+   need identifier leaves and nesting below 64 *)
+Theorem C01_interface_tokens_ok : forall g s rest,
+  is_binding_name (cs_name s) = true -> forallb (fun f => type_in_budget g (cf_ty f)) (listed_fields s) = true ->
+  exists asts, p_item (struct_toks g s ++ rest) = Some (IInterface (cs_name s) [] None asts [], rest) /\
+               item_ok (IInterface (cs_name s) [] None asts []) = true.
+Proof. exact interface_tokens_ok. Qed.
+
+(* enum alias template: any non-empty list of literals (their bodies are well formed by C01_str_hole_message) *)
+Theorem C01_enum_alias_ok : forall name lits rest,
+  is_binding_name name = true -> lits <> [] ->
+  exists t, p_item (enum_toks name lits ++ rest) = Some (ITypeAlias name [] t, rest) /\ item_ok (ITypeAlias name [] t) = true.
+Proof. exact enum_alias_ok. Qed.
+
+(* index.ts, the whole file *)
+Theorem C01_index_tokens_ok : forall ms,
+  p_items (S (List.length (flat_map star_toks ms))) (flat_map star_toks ms) [] = Some (map IExportStar ms) /\
+  forallb item_ok (map IExportStar ms) = true.
+Proof. exact index_tokens_ok. Qed.
+
+(* what remains unproved (stated, not asserted):
+   - the text level: that lexing the concatenated chunk texts equals lexing chunk by chunk
+     (C01_lex_compositional_full_statement; evaluated at run time on every generated case);
+   - the item templates not covered above: params interface (members as in the interface theorem plus channel
+     members and the fixed index signature), Zod struct / enum / params schemas, the wrapper functions of commands.ts
+     with their bodies, the listeners of events.ts. For these the run-time oracle and the token-for-token
+     correspondence decide every generated case. *)
 Definition C01_skeleton_full_statement : Prop :=
   forall g ss cmds evs f items,
     (forall cs, In cs items -> In cs (fl_required (gen_file g ss cmds evs f)) \/ In cs (fl_optional (gen_file g ss cmds evs f))) ->
@@ -111,9 +148,18 @@ Proof. vm_compute. repeat split. Qed.
 Example C01_ex_message : escape_js (L "say ""hi"" \ ok") = L "say \""hi\"" \\ ok".
 Proof. vm_compute. reflexivity. Qed.
 Example C01_ex_good_member :
-  good_member {| gm_key := GId (L "userId"); gm_opt := true; gm_toks := [KId (L "number")]; gm_ty := TyRef [L "number"] [] |} /\
-  good_member {| gm_key := GStr (L "full-name"); gm_opt := false; gm_toks := [KId (L "string")]; gm_ty := TyRef [L "string"] [] |}.
+  good_member {| gm_key := GId (L "userId"); gm_opt := true; gm_toks := [KId (L "number")] |} /\
+  good_member {| gm_key := GStr (L "full-name"); gm_opt := false; gm_toks := [KId (L "string")] |}.
 Proof. split; apply good_leaf; reflexivity. Qed.
+(* the token renderings of the theorems are what the lexer sees of the model text (sample; run time: every case) *)
+Example C01_ex_tokens :
+  toks_of (interface_chunks g0 ex_struct) = struct_toks g0 ex_struct /\
+  lexed (interface_chunks g0 ex_struct) = struct_toks g0 ex_struct /\
+  forallb (fun f => type_in_budget g0 (cf_ty f)) (listed_fields ex_struct) = true /\
+  lex_module (render_m g0 (pts (L "HashMap<String, Vec<Option<(User, i32)>>>"))) = rtoks g0 (pts (L "HashMap<String, Vec<Option<(User, i32)>>>")).
+Proof. exact tokens_example. Qed.
+Example C01_ex_index : lexed (all_chunks (index_file true)) = flat_map star_toks [L "./types"; L "./commands"; L "./events"].
+Proof. exact index_example. Qed.
 Example C01_ex_skeleton : c01_ok (text (interface_chunks g0 ex_struct)) = true /\ bad_holes (interface_chunks g0 ex_struct) = [] /\
   lexed (interface_chunks g0 ex_struct) = toks_of (interface_chunks g0 ex_struct).
 Proof. vm_compute. repeat split. Qed.
@@ -133,4 +179,8 @@ Print Assumptions C01_str_hole_message.
 Print Assumptions C01_str_hole_enum_witness.
 Print Assumptions C01_type_hole_refuted.
 Print Assumptions C01_type_hole_witnesses.
-Print Assumptions C01_skeleton_interface_partial.
+Print Assumptions C01_type_hole_render.
+Print Assumptions C01_skeleton_interface.
+Print Assumptions C01_interface_tokens_ok.
+Print Assumptions C01_enum_alias_ok.
+Print Assumptions C01_index_tokens_ok.
